@@ -49,6 +49,28 @@ def handlePure : List String → Option String
     | .error e => pure ("err " ++ routeErrName e)
     | .ok q =>
       pure s!"ok {hexStr q.paymentRequest} {q.timeoutSeconds} {q.cltvLimit} {q.outgoingChanIds} {q.maxParts} {q.amt} {q.amtMsat}"
+  | ["paygate", ch, h0, cltv, dmsat, d1, d2] => do
+    -- a swap-in responder (taker) for 1 000 000 sat: request at height h0, announcement d1 blocks later,
+    -- confirmation callback d2 blocks after that
+    let c ← chain? ch
+    let h0 ← nat? h0
+    let cltv ← int? cltv
+    let msat := wrapU64i (1000000000 + (← int? dmsat))
+    let h1 := wrapU32 (h0 + (← nat? d1))
+    let h2 := wrapU32 (h1 + (← nat? d2))
+    match c with
+    | .btc =>
+      match awaitTxConfBtc Gen.bitcoinCsv cltv msat 1000000 h0 h1 with
+      | .err _ => pure "rejected"
+      | .ok => pure (if payIterationBtc Gen.bitcoinCsv h0 h2 then "pay" else "nopay")
+    | .lbtc =>
+      match Gen.timelockPolicy .lbtc Gen.protocolVersion with
+      | none => pure "rejected"
+      | some p =>
+        match awaitTxConfLbtc p cltv msat 1000000 true h0 h1 with
+        | .err _ => pure "rejected"
+        | .ok => pure (if payIterationLbtc p true h0 h2 then "pay" else "nopay")
+    | .none => none
   | ["scid.cln", s] => do pure (hexStr (clnStyle (← unhexStr s)))
   | ["scid.lnd", s] => do pure (hexStr (lndStyle (← unhexStr s)))
   | ["premium.compute", amt, ppm] => do pure (toString (ppmCompute (← nat? amt) (← int? ppm)))
